@@ -263,7 +263,9 @@ def evaluate(c):
                 fresh_cache[key] = apply(m, op, st) if op != 'C' else apply(m, 'C', {})
             return fresh_cache[key]
         seen = set()
+        # breadth-first from the initial state AND from a state in which everything has been computed once
         frontier = [[]]
+        second_root = ['C', 'FF1', 'NF1']
         ntrans = 0
         maxd = 0
         fixed_point = False
@@ -313,6 +315,8 @@ def evaluate(c):
                         seen.add(d)
                         nxt.append(hist + [op])
             maxd += 1
+            if maxd == 1:
+                nxt.append(second_root)       # joins the frontier at depth 1: explored depth-1 further steps from it
             if not nxt:
                 fixed_point = True
                 break
